@@ -1084,6 +1084,8 @@ class recording:
         orig = self.dr
 
         def default_rng(seed=None):
+            if isinstance(seed, RecGen):      # `np.random.default_rng(generator)` returns the generator itself
+                return seed
             g = RecGen(orig(seed)); self.gens.append(g); return g
         np.random.default_rng = default_rng
         return self
@@ -1169,6 +1171,367 @@ def random_corr(ctx, r, lines, checks):
                  repro=HDR + f'sets = {{frozenset(frozenset((u, v)) for u, v, _ in G.gnm_random_bqm({nn}, {mm}, "SPIN", random_state=s).iter_quadratic()) for s in range(12)}}\nassert len(sets) > 1, sets\n')
 
 
+# ------------------------------------------------------------------------------------ round 7: anti-crossing, frustrated loops, chimera anticluster, MIMO
+
+def spin_energies(c, order):
+    """energies of all 2^n spin assignments (bit i of the index = variable order[i], 0 -> -1, 1 -> +1); exact: the
+    coefficients are small dyadic rationals, evaluated in float64"""
+    lin, quad, off = c
+    n = len(order)
+    idx = {v: i for i, v in enumerate(order)}
+    ar = np.arange(1 << n, dtype=np.int64)
+    sp = [(((ar >> i) & 1) * 2 - 1).astype(np.float64) for i in range(n)]
+    e = np.full(1 << n, float(off))
+    for v, a in lin.items():
+        if a:
+            e += float(a) * sp[idx[v]]
+    for (u, v), q in quad.items():
+        if q:
+            e += float(q) * sp[idx[u]] * sp[idx[v]]
+    return e
+
+
+def ac_cases(ctx, r, lines, checks):
+    top = ctx.scale(14, 18)
+    for name in ('anti_crossing_clique', 'anti_crossing_loops'):
+        lo = 6 if name.endswith('clique') else 8
+        for n in list(range(0, 22)) + [24, 28, 32, 40]:
+            f = getattr(G, name)
+            site = 'generators.' + name
+            call = f'G.{name}({n})'
+            try:
+                b = f(n)
+            except ValueError:
+                b = None
+            ctx.tick(f'ac:{name}' + (':raises' if b is None else '')); ctx.case(('ac', name, n), nontrivial=b is not None, sample=dict(call=call))
+            # the documented argument range; for the two-loop model "number of variables" can only be met by multiples of 4
+            valid = n % 2 == 0 and n >= lo and (name.endswith('clique') or n % 4 == 0)
+            cls = 'argument validation' if (name.endswith('clique') or n % 4 == 0 or n % 2 or n < lo) else 'num_variables not a multiple of 4'
+            if (b is None) == valid:
+                what = (f'{call}: ' + ('refused' if b is None else f'accepted; the model has {b.num_variables} variables {sorted(b.variables)!r}, not {n}'))
+                ctx.fail('property', site, cls, what,
+                         repro=HDR + f'try:\n    b = {call}\nexcept ValueError:\n    b = None\n'
+                         + (f'assert b is not None and b.num_variables == {n}\n' if valid else f'assert b is None, "accepted with %d variables, {n} requested" % b.num_variables\n'))
+                if b is None:
+                    continue
+            if b is None:
+                lines.append(f"{'acclique' if name.endswith('clique') else 'acloops'} {n}")
+                checks.append((site + ' vs Gen.acClique/acLoops', 'refusal', 'err', HDR + f'{call}\n', False))
+                continue
+            c = coef(b)
+            lin, quad, off = c
+            bad = False
+            src = HDR + f'b = {call}; n = {n}\n'
+            if name.endswith('clique'):
+                N = n // 2
+                want_lin = {v: F(1 if v < N and v != 1 else 0 if v == 1 else -1) for v in range(n)}
+                want_quad = {frozenset((u, v)): F(-1) for u in range(N) for v in range(u + 1, N)}
+                want_quad.update({frozenset((v, v + N)): F(-1) for v in range(N)})
+                got_quad = {frozenset(k): q for k, q in quad.items()}
+                if b.vartype is not dimod.SPIN or lin != want_lin or got_quad != want_quad or off != 0 or len(got_quad) != len(quad):
+                    bad = True
+                    ctx.fail('property', site, 'documented biases', f'{call}: linear {lin} quadratic {quad} offset {off}; documented: ferromagnetic clique on [0, N), '
+                             f'v ~ v+N ferromagnetic, +1 on the clique except variable 1, -1 on the attached variables',
+                             repro=src + 'N = n // 2\nassert b.vartype is dimod.SPIN and b.offset == 0\n'
+                             'assert {v: b.get_linear(v) for v in b.variables} == {v: (1 if v < N and v != 1 else 0 if v == 1 else -1) for v in range(n)}\n'
+                             'assert {frozenset((u, v)): q for u, v, q in b.iter_quadratic()} == {**{frozenset((u, v)): -1 for u in range(N) for v in range(u + 1, N)}, **{frozenset((v, v + N)): -1 for v in range(N)}}\n')
+            else:
+                if b.vartype is not dimod.SPIN or sorted(b.variables) != list(range(b.num_variables)) or off != 0 or any(q != -1 for q in quad.values()):
+                    bad = True
+                    ctx.fail('property', site, 'variables / ferromagnetic couplers', f'{call}: variables {sorted(b.variables)!r} quadratic {quad} offset {off}',
+                             repro=src + 'assert b.vartype is dimod.SPIN and sorted(b.variables) == list(range(b.num_variables)) and b.offset == 0 and all(q == -1 for q in b.quadratic.values())\n')
+            # "The ground state of this problem is therefore +1 for all variables" / "a unique ground state of all +1s": enumeration
+            if not bad and b.num_variables <= top:
+                order = sorted(b.variables)
+                e = spin_energies(c, order)
+                allp = (1 << len(order)) - 1
+                mn = e.min()
+                if e[allp] != mn or int((e == mn).sum()) != 1:
+                    w = int(np.argmin(e))
+                    ctx.fail('property', site, 'ground state', f'{call}: all +1 has energy {e[allp]}, the minimum is {mn} (e.g. at spins {[(w >> i & 1) * 2 - 1 for i in range(len(order))]}), attained {int((e == mn).sum())} times',
+                             repro=src + 'ss = dimod.ExactSolver().sample(b); lowest = ss.lowest()\nassert len(lowest) == 1 and all(v == 1 for v in lowest.first.sample.values()), lowest\n')
+                    bad = True
+                ctx.tick(f'ac:{name}:ground-state-enumerated')
+            lines.append(f"{'acclique' if name.endswith('clique') else 'acloops'} {n}")
+            checks.append((site + ' vs Gen.acClique/acLoops', 'coefficients', 'ok ' + canon_bqm(b), src + 'print(b)\n', bad))
+
+
+def fl_cases(ctx, r, lines, checks):
+    import dimod.generators.fcl as fcl
+    pool = ['a', 'b', 'c', 'd', 'e', 0, 1, 2, 3, ('t', 1)]
+    for rep in range(ctx.scale(40, 800)):
+        n = r.randint(3, 7)
+        as_int = r.random() < .3
+        nodes = list(range(n)) if as_int else r.sample(pool, n)
+        if as_int:
+            graph, edges = n, list(itertools.combinations(range(n), 2))
+        else:
+            edges = [(u, v) if r.random() < .5 else (v, u) for u, v in itertools.combinations(nodes, 2) if r.random() < .7]
+            graph = (nodes, edges)
+        num_cycles = r.randint(1, 4)
+        R = r.choice([float('inf'), float('inf'), 1, 2, 3])
+        plant = r.random() < .7
+        seed = r.choice([0, 1, r.randrange(2 ** 31)])
+        gauge = {v: r.choice([-1, 1]) for v in nodes} if r.random() < .25 else None
+        short = r.random() < .2
+        preds = (lambda c: len(c) <= 4,) if short else ()
+        mal = r.random() < .06
+        if mal:
+            which = r.choice(['num_cycles', 'R', 'max_failed_cycles'])
+        kw = dict(R=R, plant_solution=plant, seed=seed, cycle_predicates=preds)
+        if gauge is not None:
+            kw['planted_solution'] = gauge
+        if mal:
+            if which == 'num_cycles':
+                num_cycles = r.choice([0, -1])
+            else:
+                kw[which] = r.choice([0, -2])
+        site = 'generators.frustrated_loop'
+        kwsrc = ', '.join(f'{k}={("(lambda c: len(c) <= 4,)" if v else "()") if k == "cycle_predicates" else repr(v) if v != float("inf") else "float(\"inf\")"}' for k, v in kw.items())
+        call = f'G.frustrated_loop({graph!r}, {num_cycles}, {kwsrc})'
+        rec_cycles = []
+        orig = fcl._random_cycle
+
+        def wrapped(adj, rs):
+            cyc = orig(adj, rs)
+            rec_cycles.append((None if cyc is None else list(cyc), len(rs.log)))
+            return cyc
+        out = err = None
+        try:
+            fcl._random_cycle = wrapped
+            with warnings.catch_warnings():
+                warnings.simplefilter('ignore')
+                with recording() as rec:
+                    out = G.frustrated_loop(graph, num_cycles, **kw)
+                log = rec.stream()
+        except (ValueError, RuntimeError) as e:
+            err = e
+        finally:
+            fcl._random_cycle = orig
+        ctx.tick('fl' + (':plant' if plant else ':unplanted') + (':gauge' if gauge else '') + (':R' if R != float('inf') else '') + (':predicate' if short else '')
+                 + (f':raises-{type(err).__name__}' if err else ''))
+        ctx.case(('fl', call), nontrivial=out is not None, sample=dict(call=call))
+        pre = HDR + 'import warnings; warnings.simplefilter("ignore")\n'
+        if mal or isinstance(err, ValueError):
+            if not (mal and isinstance(err, ValueError)):
+                ctx.fail('property', site, 'argument validation', f'{call}: ' + (f'refused: {err}' if err else 'accepted'),
+                         repro=pre + f'try:\n    {call}\n    ok = True\nexcept ValueError:\n    ok = False\nassert ok == {not mal}\n')
+            continue
+        good = [(c, pos) for c, pos in rec_cycles if c is not None and all(p(c) for p in preds)]
+        if err is not None:
+            # RuntimeError is the documented outcome only when fewer good cycles than requested were found within max_failed_cycles failures
+            if len(good) >= num_cycles or len(rec_cycles) - len(good) < 100:
+                ctx.fail('property', site, 'raises', f'{call}: {err} although {len(good)} good cycles were drawn ({len(rec_cycles) - len(good)} failures)', repro=pre + call + '\n')
+            continue
+        b = out
+        lin, quad, off = coef(b)
+        adjset = {frozenset(e) for e in edges}
+        bad = False
+
+        def fail(cls, what, repro_tail):
+            nonlocal bad
+            bad = True
+            ctx.fail('property', site, cls, f'{call}: {what}', repro=pre + f'b = {call}\n' + repro_tail)
+        # the recorded loops: simple cycles of the graph, as many as requested
+        cyc_ok = all(len(c) >= 3 and len(set(c)) == len(c) and all(frozenset((c[i - 1], c[i])) in adjset for i in range(len(c))) for c, _ in good)
+        idxs = [log[pos] if plant else None for _, pos in good]
+        if len(good) != num_cycles or not cyc_ok or (plant and any(not 0 <= i < len(c) for (c, _), i in zip(good, idxs))):
+            fail('loops', f'the walk returned {[c for c, _ in good]!r} (draws {idxs}): not {num_cycles} simple cycles of the graph', 'assert False, "see the recorded cycles"\n')
+            continue
+        want = {}
+        for (c, _), i in zip(good, idxs):
+            L = len(c)
+            afm = (c[i - 1], c[i]) if plant else (c[-1], c[0])       # exactly one anti-ferromagnetic coupler per loop
+            for k in range(L):
+                e = frozenset((c[k - 1], c[k]))
+                want[e] = want.get(e, 0) + (1 if e == frozenset(afm) else -1)
+        if gauge is not None:
+            want = {e: q * gauge[tuple(e)[0]] * gauge[tuple(e)[1]] for e, q in want.items()}
+        got = {frozenset(k): q for k, q in quad.items()}
+        bound = -sum(len(c) - 2 for c, _ in good)
+        if (b.vartype is not dimod.SPIN or set(b.variables) != set(nodes) or len(b.variables) != len(nodes) or any(lin.values()) or off != 0 or set(got) != adjset
+                or any(got[e] != want.get(e, 0) for e in got)):
+            fail('sum of frustrated loops', f'loops {[c for c, _ in good]!r} with anti-ferromagnetic positions {idxs}: couplings {quad}, expected {want}',
+                 'assert False, "couplings are not the sum of the drawn loops with one AFM edge each"\n')
+        elif R != float('inf') and any(abs(q) > R for q in got.values()):
+            fail('R', f'an interaction exceeds R={R}: {quad}', f'assert all(abs(q) <= {R} for q in b.quadratic.values())\n')
+        else:
+            e = spin_energies((lin, quad, off), nodes)
+            state = gauge or {v: 1 for v in nodes}
+            ip = sum(1 << k for k, v in enumerate(nodes) if state[v] == 1)
+            # every loop is frustrated: no state is below -(L-2) per loop; with a planted solution that state attains it
+            if e.min() < bound or (plant and (e[ip] != bound or e[ip] != e.min())):
+                fail('planted ground state', f'loops {[c for c, _ in good]!r}: minimum energy {e.min()}, planted state {e[ip]}, -sum(L-2) = {bound}',
+                     f'ss = dimod.ExactSolver().sample(b)\nstate = {state!r}\nassert b.energy(state) == ss.first.energy\n')
+        ctxt = ';'.join(','.join(lab(v) for v in c) + '@' + ('-' if i is None else str(i)) for (c, _), i in zip(good, idxs)) or '-'
+        lines.append(f"fl {','.join(lab(v) for v in nodes)} {','.join(f'{lab(u)}~{lab(v)}' for u, v in edges) or '-'} {ctxt} "
+                     + ('-' if gauge is None else ','.join(f'{lab(v)}={s}' for v, s in gauge.items())))
+        checks.append((site + ' vs Gen.frustratedLoop (loops drawn: recorded)', 'interactions of the drawn loops', 'ok ' + canon_bqm(b), pre + f'print({call})\n', bad))
+
+
+def chimera_lattice(m, n, t):
+    """Chimera(m, n, t) from its definition: node ((i, j), u, k) has index ((i*n + j)*2 + u)*t + k; inside a tile every
+    shore-0 node meets every shore-1 node; shore-0 nodes continue vertically, shore-1 nodes horizontally"""
+    ix = lambda i, j, u, k: ((i * n + j) * 2 + u) * t + k   # noqa: E731
+    tile = {frozenset((ix(i, j, 0, a), ix(i, j, 1, b))) for i in range(m) for j in range(n) for a in range(t) for b in range(t)}
+    inter = {frozenset((ix(i, j, 0, k), ix(i + 1, j, 0, k))) for i in range(m - 1) for j in range(n) for k in range(t)}
+    inter |= {frozenset((ix(i, j, 1, k), ix(i, j + 1, 1, k))) for i in range(m) for j in range(n - 1) for k in range(t)}
+    return tile, inter
+
+
+def chimera_cases(ctx, r, lines, checks):
+    from dimod.generators.chimera import chimera_anticluster
+    for rep in range(ctx.scale(40, 700)):
+        m = r.randint(0, 3); n = r.choice([None, r.randint(0, 3)]); t = r.choice([0, 1, 2, 2, 3, 4])
+        nn = m if n is None else n
+        if m * nn * t * 2 > 48:
+            t = 1
+        mult = r.choice([F(3), F(3), F(2), F(1, 2), F(-3, 2), F(1)])
+        seed = r.choice([0, 1, r.randrange(2 ** 31)])
+        tile, inter = chimera_lattice(m, nn, t)
+        alle = sorted(map(sorted, tile | inter))
+        sub = None; mal = None
+        k = r.random()
+        if k < .45 and m * nn * t:
+            nodes = [v for v in range(m * nn * t * 2) if r.random() < .7]; r.shuffle(nodes)
+            edges = [tuple(e) if r.random() < .5 else (e[1], e[0]) for e in alle if e[0] in nodes and e[1] in nodes and r.random() < .7]
+            kk = r.random()
+            if kk < .12:
+                nodes.append(m * nn * t * 2 + r.randint(0, 3)); mal = 'subgraph node outside the lattice'
+            elif kk < .24 and len(nodes) >= 2:
+                cand = [(u, v) for u, v in itertools.combinations(sorted(nodes), 2) if frozenset((u, v)) not in tile | inter]
+                if cand:
+                    edges.append(r.choice(cand)); mal = 'subgraph edge outside the lattice'
+            sub = (nodes, edges)
+        args = f'{m}, {n}, {t}, multiplier={float(mult)!r}, subgraph={sub!r}, seed={seed}'
+        call = f'chimera_anticluster({args})'
+        site = 'generators.chimera_anticluster'
+        pre = HDR + 'from dimod.generators.chimera import chimera_anticluster\n'
+        err = None
+        try:
+            with warnings.catch_warnings():
+                warnings.simplefilter('ignore')
+                with recording() as rec:
+                    b = chimera_anticluster(m, n, t, multiplier=float(mult), subgraph=sub, seed=seed)
+                log = rec.stream()
+        except ValueError as e:
+            b, err, log = None, e, None
+        ctx.tick('chimera' + (':subgraph' if sub else '') + (':raises' if b is None else '') + (':' + mal if mal else ''))
+        ctx.case(('chimera', call), nontrivial=b is not None and bool(tile), sample=dict(call=call))
+        if (b is None) != (mal is not None):
+            ctx.fail('property', site, mal or 'valid arguments', f'{call}: ' + (f'refused: {err}' if b is None else 'accepted'),
+                     repro=pre + f'try:\n    {call}\n    ok = True\nexcept ValueError:\n    ok = False\nassert ok == {mal is None}\n')
+            continue
+        if b is None:
+            # (the draws happen before the refusal: take them from a run without subgraph)
+            with recording() as rec:
+                chimera_anticluster(m, n, t, multiplier=float(mult), seed=seed)
+            log = rec.stream()
+        bad = False
+        if b is not None:
+            lin, quad, off = coef(b)
+            got = {frozenset(kk_): q for kk_, q in quad.items()}
+            want_nodes = list(range(m * nn * t * 2)) if sub is None else sub[0]
+            want_edges = (tile | inter) if sub is None else {frozenset(e) for e in sub[1]}
+            with warnings.catch_warnings():
+                warnings.simplefilter('ignore')
+                full = chimera_anticluster(m, n, t, multiplier=float(mult), seed=seed)
+            fq = {frozenset((u, v)): fr(q) for u, v, q in full.iter_quadratic()}
+            if (b.vartype is not dimod.SPIN or list(b.variables) != want_nodes or any(lin.values()) or off != 0 or set(got) != want_edges
+                    or any((abs(q) != 1) if e in tile else (q not in (mult, -mult)) for e, q in got.items()) or any(got[e] != fq[e] for e in got)
+                    or len(log) != len(tile | inter) or any(x not in (0, 1) for x in log)):
+                bad = True
+                ctx.fail('property', site, 'anticluster structure', f'{call}: variables {list(b.variables)!r} couplings {quad}; documented: +-1 inside a tile, +-multiplier between tiles, '
+                         f'exactly the edges of Chimera({m}, {nn}, {t})' + (' restricted to the subgraph, with the couplings of the full lattice for this seed' if sub else ''),
+                         repro=pre + f'b = {call}\nm, n, t, mult = {m}, {nn}, {t}, {float(mult)!r}\n'
+                         'ix = lambda i, j, u, k: ((i*n + j)*2 + u)*t + k\n'
+                         'tile = {frozenset((ix(i, j, 0, a), ix(i, j, 1, c))) for i in range(m) for j in range(n) for a in range(t) for c in range(t)}\n'
+                         'inter = {frozenset((ix(i, j, 0, k), ix(i+1, j, 0, k))) for i in range(m-1) for j in range(n) for k in range(t)} | {frozenset((ix(i, j, 1, k), ix(i, j+1, 1, k))) for i in range(m) for j in range(n-1) for k in range(t)}\n'
+                         f'sub = {sub!r}\n'
+                         'got = {frozenset((u, v)): q for u, v, q in b.iter_quadratic()}\n'
+                         'assert set(got) == ((tile | inter) if sub is None else {frozenset(e) for e in sub[1]})\n'
+                         'assert all(abs(q) == 1 if e in tile else abs(q) == abs(mult) for e, q in got.items()) and not any(b.linear.values()) and b.offset == 0\n')
+        lines.append(f"chim {m} {nn} {t} {rat(mult)} " + ('none -' if sub is None else f"{','.join(lab(v) for v in sub[0]) or '-'} {','.join(f'{lab(u)}~{lab(v)}' for u, v in sub[1]) or '-'}")
+                     + ' ' + (','.join(str(int(x)) for x in log) or '-'))
+        checks.append((site + ' vs Gen.chimeraAnticluster (draws recorded)', 'placement of the draws' if b is not None else 'refusal', 'err' if b is None else 'ok ' + canon_bqm(b), pre + f'print({call})\n', bad))
+
+
+def mimo_cases(ctx, r, lines, checks):
+    from dimod.generators.wireless import mimo
+    site = 'generators.mimo'
+    pre = HDR + 'from dimod.generators.wireless import mimo\n'
+    for rep in range(ctx.scale(40, 700)):
+        nt = r.randint(1, 5); nr = r.randint(1, 4)
+        if r.random() < .55:
+            # given (y, F), real, BPSK: energy == ||y - F s||^2 at every spin vector
+            Fm = [[F(r.randint(-8, 8), r.choice([1, 1, 2, 4])) for _ in range(nt)] for _ in range(nr)]
+            y = [F(r.randint(-12, 12), r.choice([1, 2, 4])) for _ in range(nr)]
+            mal = r.random() < .08
+            if mal:
+                y = y + [F(1)]
+            as_col = r.random() < .5
+            ysrc = f'np.array({[[float(v)] for v in y]!r})' if as_col else f'np.array({[float(v) for v in y]!r})'
+            call = f'mimo("BPSK", {ysrc}, np.array({[[float(v) for v in row] for row in Fm]!r}))'
+            try:
+                with warnings.catch_warnings():
+                    warnings.simplefilter('ignore')
+                    b = eval(call, {'mimo': mimo, 'np': np})
+            except ValueError:
+                b = None
+            ctx.tick('mimo:given' + (':raises' if b is None else '')); ctx.case(('mimo', call), nontrivial=b is not None, sample=dict(call=call))
+            if (b is None) != mal:
+                ctx.fail('property', site, 'shape mismatch' if mal else 'valid arguments', f'{call}: ' + ('refused' if b is None else 'accepted'),
+                         repro=pre + f'try:\n    {call}\n    ok = True\nexcept ValueError:\n    ok = False\nassert ok == {not mal}\n')
+                continue
+            src = (pre + f'b = {call}\ny = {[str(v) for v in y]!r}; Fm = {[[str(v) for v in row] for row in Fm]!r}\nc = coef(b)\n'
+                   'for s in itertools.product((-1, 1), repeat=len(Fm[0])):\n'
+                   '    want = sum((F(y[k]) - sum(F(Fm[k][i]) * s[i] for i in range(len(s))))**2 for k in range(len(Fm)))\n'
+                   '    assert en(c, dict(enumerate(s))) == want, (s, en(c, dict(enumerate(s))), want)\n')
+            bad = False
+            if b is not None:
+                c = coef(b)
+                if b.vartype is not dimod.SPIN or list(b.variables) != list(range(nt)):
+                    bad = True
+                    ctx.fail('property', site, 'variables', f'{call}: {b.vartype.name} {list(b.variables)!r}', repro=src)
+                for s in itertools.product((-1, 1), repeat=nt) if not bad else ():
+                    want = sum((y[k] - sum(Fm[k][i] * s[i] for i in range(nt))) ** 2 for k in range(nr))
+                    got = energy(c, dict(enumerate(s)))
+                    if got != want:
+                        bad = True
+                        ctx.fail('property', site, 'BPSK, real channel: energy vs ||y - F v||^2', f'{call}: at {s} energy {got}, ||y - F s||^2 = {want}', repro=src)
+                        break
+            lines.append(f"mimo {nt} {','.join(map(rat, y))} {';'.join(','.join(map(rat, row)) for row in Fm)}")
+            checks.append((site + ' vs Gen.mimoBpsk', 'given y and F', 'err' if b is None else 'ok ' + canon_bqm(b), src, bad))
+        else:
+            seed = r.choice([0, 1, r.randrange(2 ** 31)])
+            call = f'mimo("BPSK", num_transmitters={nt}, num_receivers={nr}, F_distribution=("binary", "real"), seed={seed})'
+            with warnings.catch_warnings():
+                warnings.simplefilter('ignore')
+                with recording() as rec:
+                    b = eval(call, {'mimo': mimo, 'np': np})
+                log = rec.stream()
+            ctx.tick('mimo:binary-channel'); ctx.case(('mimo', call), nontrivial=True, sample=dict(call=call))
+            c = coef(b)
+            bad = False
+            src = pre + f'b = {call}\nlowest = dimod.ExactSolver().sample(b).first.energy\nassert lowest == 0, lowest   # no noise: the transmitted symbols have ||y - F v||^2 = 0\n'
+            if len(log) != nr * nt + nt or any(x not in (0, 1) for x in log[:nr * nt]) or any(log[nr * nt:]) or b.vartype is not dimod.SPIN or list(b.variables) != list(range(nt)):
+                bad = True
+                ctx.fail('property', site, 'draws', f'{call}: recorded draws {log!r}, variables {list(b.variables)!r}', repro=src)
+            else:
+                Fm = [[1 - 2 * log[k * nt + i] for i in range(nt)] for k in range(nr)]
+                v = [1 for x in log[nr * nt:]]     # BPSK: "by default, symbols are chosen for all users as 1" (the only amplitude)
+                yv = [sum(Fm[k][i] * v[i] for i in range(nt)) for k in range(nr)]
+                for s in itertools.product((-1, 1), repeat=nt):
+                    want = sum((yv[k] - sum(Fm[k][i] * s[i] for i in range(nt))) ** 2 for k in range(nr))
+                    got = energy(c, dict(enumerate(s)))
+                    if got != want or got < 0:
+                        bad = True
+                        ctx.fail('property', site, 'BPSK, binary real channel: energy vs ||F v - F s||^2', f'{call}: channel {Fm} symbols {v}: at {s} energy {got}, expected {want}', repro=src)
+                        break
+            lines.append(f"mimob {nr} {nt} {','.join(str(int(x)) for x in log) or '-'}")
+            checks.append((site + ' vs Gen.mimoBinary (draws recorded)', 'channel and symbols drawn', 'ok ' + canon_bqm(b), src, bad))
+
+
 def run(ctx):
     r = ctx.rng
     ctx.rule = ('every gate generator with random labels (ints, strings, nested tuples) / strengths, both vartypes, every row of the truth table x every auxiliary value; '
@@ -1187,6 +1550,10 @@ def run(ctx):
     msq_cases(ctx, r, lines, checks)
     random_cases(ctx, r)
     random_corr(ctx, r, lines, checks)
+    ac_cases(ctx, r, lines, checks)
+    fl_cases(ctx, r, lines, checks)
+    chimera_cases(ctx, r, lines, checks)
+    mimo_cases(ctx, r, lines, checks)
     ctx.notes.append('random generators: the NumPy generator is a contract (its draws are recorded and handed to the models as an explicit stream); placement of the draws, index maps, pair selection, capacities are modelled (Rnd.*) and proved; range / reproducibility over seeds stay validated; '
                      'multiplication circuit: "energy 0 (minimised over the internal wires) iff p = a*b, else >= 1" is proved for all n, m >= 2 (multiplication_circuit_zero_iff_product); the enumeration up to 3x3 stays as a test')
     got = run_driver('gendriver', lines)
